@@ -18,7 +18,7 @@ def _group(stats, prefix):
     return {k[len(prefix):]: v for k, v in sorted(stats.items()) if k.startswith(prefix)}
 
 
-def write(mname, m, tier, seed, workers, batch, selftest, reports, wall, t_batch, complete, plan):
+def write(mname, m, tier, seed, workers, batch, selftest, reports, wall, t_batch, complete, plan, probes=None):
     r = batch.res
     stats = r["stats"]
     runs = r["runs"]
@@ -66,7 +66,10 @@ def write(mname, m, tier, seed, workers, batch, selftest, reports, wall, t_batch
         "determinism_selftest": selftest,
         "components": m.COMPONENTS,
         "known_findings_hit": [rep["known"].get("id", rep["known"].get("what_fails")) for rep in reports
-                               if rep.get("known")],
+                               if rep.get("known")] + [
+                                   "pdaniell-freq-len" for k, v in sorted((probes or {}).items())
+                                   if "known finding" in v.get("outcome", "")],
+        "fixed_probes": probes or {},
         "violation_buckets": [{"clause": rep["clause"], "runs": rep["count"], "replay": rep["replay"],
                                "confirmed_in_fresh_process": rep["confirmed"], "known": bool(rep["known"]),
                                "history": rep["history"]} for rep in reports],
@@ -82,7 +85,8 @@ def write(mname, m, tier, seed, workers, batch, selftest, reports, wall, t_batch
         "coverage": coverage,
         "assumptions": m.ASSUMPTIONS,
         "wall_s": round(wall, 2),
-        "violations": len([rep for rep in reports if rep["confirmed"] and not rep["known"]]),
+        "violations": len([rep for rep in reports if rep["confirmed"] and not rep["known"]]) + len(
+            [v for v in (probes or {}).values() if v.get("outcome") == "VIOLATION"]),
     }
     os.makedirs(os.path.join(sut.VERIF, "evidence"), exist_ok=True)
     path = os.path.join(sut.VERIF, "evidence", "%s.json" % m.PROPERTY)
